@@ -50,6 +50,7 @@ def dstep (s : DSt) (toks : List String) : DSt × String :=
   | "lm" :: r => (s, EventsSpec.checkLM r)
   | "uu" :: r => (s, EventsSpec.checkUU r)
   | "vd" :: r => (s, EventsSpec.checkVD r)
+  | "vy" :: r => (s, EventsSpec.checkVY r)
   | "vc" :: _ => (s, "begun")   -- concurrent Listener creation: the round follows as `vn` lines
   | "vx" :: _ => (s, "begun")   -- concurrent deregistrations of one listener: the round follows as `vn` lines
   | _ => (s, "bad-op")
